@@ -469,7 +469,7 @@ def check_loop_control_transparent(ctx: RuleCtx, foreach: str) -> None:
     for name, defs in methods.items():
         for _, _, fn in defs:
             if any(isinstance(n, ast.Subscript) and attr_chain(n.value) is not None and str(attr_chain(n.value)).startswith('self.') for n in ast.walk(fn)) \
-                    and any(isinstance(n, ast.Call) and isinstance(n.func, ast.Name) for n in ast.walk(fn)):
+                    and any(isinstance(n, ast.Call) and isinstance(n.func, (ast.Name, ast.Subscript)) for n in ast.walk(fn)):
                 edges[name] |= dynamic
 
     def closure(start: str, g: T.Dict[str, T.Set[str]]) -> T.Set[str]:
@@ -523,6 +523,8 @@ def check_loop_control_transparent(ctx: RuleCtx, foreach: str) -> None:
     ctx.floor('try statements around nested statement evaluation between a loop body and break/continue', n, 2)
     ctx.ok(f'loop-control requests pass through {len(between) - 1} evaluator functions between a foreach body and the raising statement ({n} try statements read)')
     ctx.floor('evaluator functions between a loop body and the raising statement (dispatch through method references included)', len(between), 12)
+    if not any(m is im for name in between for m, _, _ in methods[name]):
+        raise Undecided('no function of the concrete Interpreter is reachable from the loop body: the dispatch of build-file functions is written in a way this rule does not follow')
 
 
 # ---------------------------------------------------------------------------
